@@ -28,10 +28,10 @@ type Case struct {
 	// distinct names that are easily taken for one: case, length, hash collisions, ...)
 	Names      []string `json:"names,omitempty"`
 	NameFamily string   `json:"name_family,omitempty"`
-	PShape   string         `json:"pshape"`           // none | one | each
-	RFmts    []int16        `json:"rfmts,omitempty"`
-	Limit    int            `json:"limit"`
-	TLS      bool           `json:"tls,omitempty"`
+	PShape     string   `json:"pshape"` // none | one | each
+	RFmts      []int16  `json:"rfmts,omitempty"`
+	Limit      int      `json:"limit"`
+	TLS        bool     `json:"tls,omitempty"`
 }
 
 const q = "select $1"
